@@ -6,7 +6,7 @@
    Side conditions: the input is not final (BIP65) and the transaction version is >= 2
    (BIP112) -- without them the statement is false (InterpRefuted.v).
    Covered: every fragment except thresh and the multisig leaves (see [icover]). *)
-From Verif Require Import Exec Ser Ast Types TypeCheck ExecLemmas TheoremA InterpModel.
+From Verif Require Import Exec Ser Ast Types TypeCheck ExecLemmas TheoremA InterpModel InterpRefine.
 From Coq Require Import Lia.
 Local Open Scope N_scope.
 
@@ -42,14 +42,17 @@ Section InterpSound.
     | MAlt x | MSwap x | MCheck x | MDupIf x | MVerify x | MNonZero x | MZeroNotEqual x => iwf x
     | MAndV x y | MAndB x y | MOrB x y | MOrD x y | MOrC x y | MOrI x y => iwf x /\ iwf y
     | MAndOr a b c => iwf a /\ iwf b /\ iwf c
-    | MThresh _ xs => (fix go (l : list ms) : Prop := match l with [] => True | x :: r => iwf x /\ go r end) xs
+    | MThresh k xs =>
+      1 <= k <= N.of_nat (length xs) /\ (length xs < 1000)%nat /\
+      (fix go (l : list ms) : Prop := match l with [] => True | x :: r => iwf x /\ go r end) xs
     | _ => True
     end.
 
   (* fragments covered by this file *)
   Fixpoint icover (m : ms) : Prop :=
     match m with
-    | MThresh _ _ | MMulti _ _ | MSortedMulti _ _ | MMultiA _ _ | MSortedMultiA _ _ => False
+    | MMulti _ _ | MSortedMulti _ _ | MMultiA _ _ | MSortedMultiA _ _ => False
+    | MThresh _ xs => (fix go (l : list ms) : Prop := match l with [] => True | x :: r => icover x /\ go r end) xs
     | MAlt x | MSwap x | MCheck x | MDupIf x | MVerify x | MNonZero x | MZeroNotEqual x => icover x
     | MAndV x y | MAndB x y | MOrB x y | MOrD x y | MOrC x y | MOrI x y => icover x /\ icover y
     | MAndOr a b c => icover a /\ icover b /\ icover c
@@ -625,6 +628,108 @@ Section InterpSound.
   Qed.
 
 
+  (* ---------------------------------------------------------------- thresh *)
+  Lemma num_enc_eqb a b : (0 <= a < 2147483648)%Z -> (0 <= b < 2147483648)%Z ->
+    bytes_eqb (num_encode a) (num_encode b) = (a =? b)%Z.
+  Proof.
+    intros Ha Hb. destruct (Z.eqb_spec a b) as [->|Hne]; [apply bytes_eqb_refl|].
+    apply bytes_eqb_neq. intros E. pose proof (Hnum4 a Ha) as H1. rewrite E, (Hnum4 b Hb) in H1.
+    inversion H1. lia.
+  Qed.
+
+  Definition isb (x : elem) : Prop := x = ESat \/ x = EDis.
+  Definition bit (x : elem) : N := match x with ESat => 1 | _ => 0 end.
+
+  Lemma outrel_unit_val x v : outrel true x v -> isb x /\ v = num_encode (Z.of_N (bit x)).
+  Proof.
+    intros [[-> [_ [_ Hu]]]|[-> ->]]; (split; [left + right; reflexivity|]); [rewrite (Hu eq_refl)|]; reflexivity.
+  Qed.
+
+  Lemma s_tloop k l : Forall (fun x => sound x BW true IAny) l ->
+    forall ns xp r st' cs, Forall okelem r -> isb xp ->
+      tloop e ke kp k l ns (xp :: r) = XOk st' cs ->
+      (Z.of_N ns + 1 + Z.of_nat (length l) < 2147483648)%Z -> (0 < Z.of_N k < 2147483648)%Z ->
+      exists w r' x, r = w ++ r' /\ st' = x :: r' /\ (l = [] -> w = []) /\
+        forall rest al, exists v,
+          exec e (enc_tail ke l ++ [push_int (Z.of_N k); IOp OP_EQUAL])
+               (mkSt (num_encode (Z.of_N (ns + bit xp)) :: C w ++ rest) al) = Ok (mkSt (v :: rest) al)
+          /\ outrel true x v.
+  Proof.
+    induction 1 as [|x l' Hx Hl IH]; intros ns xp r st' cs Hok Hxp H Hbound Hk.
+    - cbn [tloop] in H. exists [], r.
+      assert (Hrun : forall rest al,
+                exec e (enc_tail ke [] ++ [push_int (Z.of_N k); IOp OP_EQUAL])
+                     (mkSt (num_encode (Z.of_N (ns + bit xp)) :: C [] ++ rest) al)
+                = Ok (mkSt (bool_bytes (Z.of_N k =? Z.of_N (ns + bit xp))%Z :: rest) al)).
+      { intros rest al. cbn [enc_tail app C map length] in *. rewrite exec_cons, exec_push_int'. cbn [bind stk alt].
+        rewrite exec_op_cons. cbn [exec_op stk alt bind exec].
+        rewrite num_enc_eqb by (destruct Hxp as [-> | ->]; cbn [bit]; lia). reflexivity. }
+      destruct Hxp as [-> | ->]; cbn [bit] in *.
+      + destruct (N.eqb_spec k 0) as [E|E]; [discriminate|]. inversion H; subst.
+        eexists. split; [reflexivity|]. split; [reflexivity|]. split; [reflexivity|]. intros rest al. eexists. split; [apply Hrun|].
+        destruct (N.eqb_spec ns (k - 1)) as [E1|E1].
+        * replace (Z.of_N k =? Z.of_N (ns + 1))%Z with true by (symmetry; apply Z.eqb_eq; lia). apply outrel_sat1.
+        * replace (Z.of_N k =? Z.of_N (ns + 1))%Z with false by (symmetry; apply Z.eqb_neq; lia). apply outrel_dis.
+      + inversion H; subst.
+        eexists. split; [reflexivity|]. split; [reflexivity|]. split; [reflexivity|]. intros rest al. eexists. split; [apply Hrun|].
+        rewrite N.add_0_r. destruct (N.eqb_spec ns k) as [E1|E1].
+        * replace (Z.of_N k =? Z.of_N ns)%Z with true by (symmetry; apply Z.eqb_eq; lia). apply outrel_sat1.
+        * replace (Z.of_N k =? Z.of_N ns)%Z with false by (symmetry; apply Z.eqb_neq; lia). apply outrel_dis.
+    - cbn [tloop] in H.
+      assert (Hcont : exists s1 c1 c2, ev x r = XOk s1 c1 /\ tloop e ke kp k l' (ns + bit xp) s1 = XOk st' c2).
+      { apply xpop_ok in H. destruct H as [[r0 [E H]]|[r0 [E H]]]; inversion E; subst; clear E;
+          apply xbind_ok in H; destruct H as [s1 [c1 [c2 [H1 [H2 _]]]]]; exists s1, c1, c2; cbn [bit];
+          rewrite ?N.add_0_r; auto. }
+      destruct Hcont as [s1 [c1 [c2 [Hx1 Hf]]]].
+      destruct (Hx r s1 c1 Hok Hx1) as [wx [r1 [-> [_ [x1 [-> Hpx]]]]]].
+      assert (Hb1 : isb x1 /\ True).
+      { destruct (Hpx [] [] []) as [v [_ Ho]]. split; [apply (outrel_unit_val _ _ Ho) | exact I]. }
+      destruct Hb1 as [Hb1 _].
+      cbn [length] in Hbound.
+      assert (Hbit : (Z.of_N (bit xp) <= 1)%Z) by (destruct xp; cbn; lia).
+      destruct (IH (ns + bit xp) x1 r1 st' c2 (Forall_app_r _ _ _ Hok) Hb1 Hf ltac:(lia) Hk) as [w' [r' [x2 [-> [-> [_ Hp2]]]]]].
+      exists (wx ++ w'), r', x2. split; [apply app_assoc|]. split; [reflexivity|]. split; [discriminate|]. intros rest al.
+      destruct (Hp2 rest al) as [v2 [Hr2 Ho2]]. exists v2. split; [|exact Ho2].
+      destruct (Hpx (num_encode (Z.of_N (ns + bit xp))) (C w' ++ rest) al) as [v1 [Hr1 Ho1]].
+      destruct (outrel_unit_val _ _ Ho1) as [_ ->].
+      cbn [enc_tail]. rewrite <- !app_assoc, exec_app, C_app, <- app_assoc.
+      assert (Hadd : forall a b rest' al', (0 <= a < 2147483647)%Z -> (0 <= b <= 1)%Z ->
+                (exec_op e OP_ADD (mkSt (num_encode b :: num_encode a :: rest') al') = Ok (mkSt (num_encode (a + b) :: rest') al')) /\
+                (exec_op e OP_ADD (mkSt (num_encode a :: num_encode b :: rest') al') = Ok (mkSt (num_encode (a + b) :: rest') al'))).
+      { intros a b rest' al' Ha Hb. cbn [exec_op stk alt]. rewrite (Hnum4 a), (Hnum4 b) by lia.
+        split; [reflexivity | rewrite Z.add_comm; reflexivity]. }
+      assert (Hb01 : (0 <= Z.of_N (bit x1) <= 1)%Z) by (destruct x1; cbn; lia).
+      destruct (Hadd (Z.of_N (ns + bit xp)) (Z.of_N (bit x1)) (C w' ++ rest) al ltac:(lia) Hb01) as [Ha1 Ha2].
+      replace (Z.of_N (ns + bit xp) + Z.of_N (bit x1))%Z with (Z.of_N (ns + bit xp + bit x1)) in Ha1, Ha2 by lia.
+      destruct Hr1 as [Hr1|Hr1]; erewrite bind_ok by exact Hr1; cbn [app]; rewrite exec_op_cons;
+        [rewrite Ha1 | rewrite Ha2]; cbn [bind]; exact Hr2.
+  Qed.
+
+  Definition weight_class (i : input) : input :=
+    match i with IZero => IZero | IOne | IOneNonZero => IOne | _ => IAny end.
+  Definition thresh_input (i0 : input) (rest : list ms) : input :=
+    match rest with [] => weight_class i0 | _ => IAny end.
+
+  Lemma s_thresh k x0 rest i0 :
+    sound x0 BB true i0 -> Forall (fun x => sound x BW true IAny) rest ->
+    1 <= k <= N.of_nat (S (length rest)) -> (S (length rest) < 1000)%nat ->
+    sound (MThresh k (x0 :: rest)) BB true (thresh_input i0 rest).
+  Proof.
+    intros H0 Hr Hk Hn st st' cs Hok H. rewrite ev_thresh in H. apply xbind_ok in H.
+    destruct H as [s1 [c1 [c2 [Hx0 [Hf _]]]]].
+    destruct (H0 st s1 c1 Hok Hx0) as [w0 [r1 [-> [Hs0 [x1 [-> Hp0]]]]]].
+    assert (Hb1 : isb x1) by (destruct (Hp0 [] []) as [v [_ Ho]]; apply (outrel_unit_val _ _ Ho)).
+    destruct (s_tloop k rest Hr 0 x1 r1 st' c2 (Forall_app_r _ _ _ Hok) Hb1 Hf ltac:(lia) ltac:(lia))
+      as [w' [r' [x2 [-> [-> [Hnil Hp2]]]]]].
+    exists (w0 ++ w'), r'. split; [apply app_assoc|]. split.
+    { unfold thresh_input. destruct rest as [|y rest']; [|exact I].
+      rewrite (Hnil eq_refl), app_nil_r. destruct i0; cbn [weight_class shapeI] in *; auto. }
+    exists x2. split; [reflexivity|]. intros rest0 al.
+    destruct (Hp2 rest0 al) as [v2 [Hr2 Ho2]]. exists v2. split; [|exact Ho2].
+    destruct (Hp0 (C w' ++ rest0) al) as [v1 [Hr1 Ho1]]. destruct (outrel_unit_val _ _ Ho1) as [_ ->].
+    rewrite enc_thresh, exec_app, C_app, <- app_assoc, Hr1. cbn [bind]. rewrite N.add_0_l in Hr2. exact Hr2.
+  Qed.
+
   (* ---------------------------------------------------------------- typing dispatch *)
   Definition isound (m : ms) (t : ty) : Prop :=
     sound m (c_base (t_corr t)) (c_unit (t_corr t)) (c_input (t_corr t)).
@@ -734,6 +839,87 @@ Section InterpSound.
       (apply (s_andor a b c _ ub uc ia ib ic); [discriminate | exact Hsa | exact Hsb | exact Hsc]).
   Qed.
 
+  (* a W-typed fragment is a:X or s:X, whose input class is "any" *)
+  Lemma w_input_any x t : type_of x = ROk t -> c_base (t_corr t) = BW -> c_input (t_corr t) = IAny.
+  Proof.
+    intros Ht Hb. destruct x; cbn [type_of] in Ht;
+      try (inversion Ht; subst; discriminate);
+      try (apply rbind_ok in Ht; destruct Ht as [[[b1 i1 d1 u1] m1] [_ Ht]];
+           try (apply rbind_ok in Ht; destruct Ht as [[[b2 i2 d2 u2] m2] [_ Ht]]);
+           try (apply rbind_ok in Ht; destruct Ht as [[[b3 i3 d3 u3] m3] [_ Ht]]);
+           unf Ht;
+           repeat match type of Ht with
+                  | context [if ?c then _ else _] => destruct c
+                  | context [match ?b with BB => _ | BK => _ | BV => _ | BW => _ end] => destruct b
+                  | context [match ?i with IZero => _ | IOne => _ | IAny => _ | IOneNonZero => _ | IAnyNonZero => _ end] => destruct i
+                  end;
+           try discriminate; inversion Ht; subst; cbn in Hb |- *; try discriminate; reflexivity).
+    (* thresh *)
+    apply rbind_ok in Ht. destruct Ht as [ts [_ Ht]]. unfold t_threshold in Ht.
+    destruct (c_threshold _ (map t_corr ts)) as [c|] eqn:Ec; [|discriminate]. inversion Ht; subst.
+    unfold c_threshold in Ec. destruct (c_thresh_loop 0 0 (map t_corr ts)); [|discriminate]. inversion Ec; subst.
+    discriminate.
+  Qed.
+
+  Definition wgt (i : input) : N := match i with IZero => 0 | IOne | IOneNonZero => 1 | _ => 2 end.
+
+  Lemma thresh_loop_rest cs : forall i na n, c_thresh_loop i na cs = ROk n -> i <> 0 ->
+    Forall (fun c => c_base c = BW /\ c_unit c = true) cs /\ na <= n /\
+    (cs <> [] -> (forall c, In c cs -> c_input c = IAny) -> na + 2 <= n).
+  Proof.
+    induction cs as [|s r IH]; intros i na n H Hi.
+    - inversion H; subst. split; [constructor|]. split; [lia|]. intros E; congruence.
+    - cbn [c_thresh_loop] in H. destruct (N.eqb_spec i 0) as [E|_]; [contradiction|]. cbn [andb negb] in H.
+      destruct (base_eqb (c_base s) BW) eqn:Eb; cbn [negb] in H; [|discriminate].
+      destruct (c_unit s) eqn:Eu; cbn [negb] in H; [|discriminate].
+      destruct (c_dissat s); cbn [negb] in H; [|discriminate].
+      destruct (IH (i + 1) _ n H ltac:(lia)) as [Hf [Hle Hge]].
+      split; [constructor; [split; [destruct (c_base s); cbn in Eb; try discriminate Eb; reflexivity | exact Eu] | exact Hf]|].
+      split; [destruct (c_input s); lia|]. intros _ Hall.
+      rewrite (Hall s (or_introl eq_refl)) in Hle. lia.
+  Qed.
+
+  Lemma i_thresh k xs : Forall istmt xs -> istmt (MThresh k xs).
+  Proof.
+    intros IH t Ht Hwf Hc. cbn [type_of] in Ht. fold (tys_of xs) in Ht.
+    apply rbind_ok in Ht. destruct Ht as [ts [Hts Ht]]. apply tys_of_ok in Hts.
+    cbn [iwf icover] in Hwf, Hc. destruct Hwf as [Hk [Hn Hwf]].
+    unfold t_threshold in Ht. destruct (c_threshold k (map t_corr ts)) as [c|] eqn:Ec; [|discriminate].
+    inversion Ht; subst; clear Ht.
+    unfold c_threshold in Ec. destruct (c_thresh_loop 0 0 (map t_corr ts)) as [n|] eqn:El; [|discriminate].
+    inversion Ec; subst; clear Ec. unfold isound. cbn [t_corr c_base c_unit c_input].
+    destruct xs as [|x0 rest]; [cbn in Hk; lia|].
+    inversion Hts as [|? t0 ? ts0 Hx0 Hrest]; subst. inversion IH as [|? ? IH0 IHr]; subst.
+    destruct Hwf as [Hw0 Hwr]. destruct Hc as [Hc0 Hcr].
+    cbn [map c_thresh_loop] in El. cbn [N.eqb andb negb] in El.
+    destruct (base_eqb (c_base (t_corr t0)) BB) eqn:Eb; cbn [negb] in El; [|discriminate].
+    destruct (c_unit (t_corr t0)) eqn:Eu; cbn [negb] in El; [|discriminate].
+    destruct (c_dissat (t_corr t0)); cbn [negb] in El; [|discriminate].
+    assert (Hb0 : c_base (t_corr t0) = BB) by (destruct (c_base (t_corr t0)); try discriminate; reflexivity).
+    destruct (thresh_loop_rest _ _ _ _ El ltac:(lia)) as [Hall [Hle Hge]].
+    pose proof (IH0 t0 Hx0 Hw0 Hc0) as Hs0. unfold isound in Hs0. rewrite Hb0, Eu in Hs0.
+    assert (Hsr : Forall (fun x => sound x BW true IAny) rest /\ (forall c, In c (map t_corr ts0) -> c_input c = IAny)).
+    { clear El Hle Hge Hk Hn Hts IH. revert ts0 Hrest Hall Hwr Hcr. induction IHr as [|x r Hx Hr IHr']; intros ts0 Hrest Hall Hwr Hcr.
+      - inversion Hrest; subst. split; [constructor | intros c []].
+      - inversion Hrest as [|? t1 ? ts1 Hxt Hrt]; subst. cbn [map] in Hall. inversion Hall as [|? ? [Hb1 Hu1] Hall']; subst.
+        destruct Hwr as [Hw1 Hwr']. destruct Hcr as [Hc1 Hcr'].
+        destruct (IHr' ts1 Hrt Hall' Hwr' Hcr') as [Hf Hin].
+        pose proof (w_input_any x t1 Hxt Hb1) as Hi1.
+        split.
+        + constructor; [|exact Hf]. pose proof (Hx t1 Hxt Hw1 Hc1) as Hs. unfold isound in Hs. rewrite Hb1, Hu1, Hi1 in Hs. exact Hs.
+        + intros c [<- | Hc']; [exact Hi1 | apply Hin, Hc']. }
+    destruct Hsr as [Hsr Hany].
+    pose proof (s_thresh k x0 rest (c_input (t_corr t0)) Hs0 Hsr ltac:(cbn [length] in Hk; lia) ltac:(cbn [length] in Hn; lia)) as Hs.
+    assert (Ein : thresh_input (c_input (t_corr t0)) rest = match n with 0 => IZero | 1 => IOne | _ => IAny end).
+    { unfold thresh_input. destruct rest as [|y rest'].
+      - inversion Hrest; subst. cbn in El. inversion El; subst. destruct (c_input (t_corr t0)); reflexivity.
+      - inversion Hrest as [|? t1 ? ts1 _ _]; subst.
+        assert (Hge' : 0 + wgt (c_input (t_corr t0)) + 2 <= n).
+        { unfold wgt. apply Hge; [discriminate | exact Hany]. }
+        destruct n as [|[p|p|]]; try reflexivity; lia. }
+    rewrite <- Ein. exact Hs.
+  Qed.
+
   Theorem ieval_sound : forall m, istmt m.
   Proof.
     induction m using ms_ind'; try (intros t Ht Hwf Hc; cbn in Hc; contradiction).
@@ -762,6 +948,7 @@ Section InterpSound.
     - apply i_or_d; assumption.
     - apply i_or_c; assumption.
     - apply i_or_i; assumption.
+    - apply i_thresh; assumption.
   Qed.
 
   (* the witness-script form: the recursive evaluator accepting implies the script accepts *)
